@@ -737,8 +737,25 @@ impl RMethod for RVidya {
 		self.last_in = x;
 		self.changes.push(ch);
 		self.d.observe(ch);
-		let up = sum(self.changes.q.iter().map(|c| if c.v > 0.0 { *c } else { T::exact(0.0) }));
-		let dn = sum(self.changes.q.iter().map(|c| if c.v < 0.0 { c.neg() } else { T::exact(0.0) }));
+		// positive / negative part of a change whose sign may be uncertain
+		let pos = |c: T| -> T {
+			if c.und() {
+				T::UND
+			} else if c.v - c.e > 0.0 || c.e == 0.0 {
+				if c.v > 0.0 {
+					c
+				} else {
+					T::exact(0.0)
+				}
+			} else if c.v + c.e <= 0.0 {
+				T::exact(0.0)
+			} else {
+				let hi = c.v + c.e;
+				T::new(hi / 2.0, hi / 2.0)
+			}
+		};
+		let up = sum(self.changes.q.iter().map(|c| pos(*c)));
+		let dn = sum(self.changes.q.iter().map(|c| pos(c.neg())));
 		let all_exact_zero = self.changes.q.iter().all(|c| c.v == 0.0 && c.e == 0.0);
 		let drift = self.d.d() * self.d.n;
 		let up = up.widen(drift);
@@ -755,7 +772,7 @@ impl RMethod for RVidya {
 		} else {
 			let lo = (cmo.v - cmo.e).max(0.0);
 			let hi = (cmo.v + cmo.e).min(1.0);
-			cmo = if hi >= lo { T::new((lo + hi) / 2.0, (hi - lo) / 2.0 + 2.0 * U) } else { T::new(cmo.v.clamp(0.0, 1.0), cmo.e) };
+			cmo = if hi >= lo { T::new((lo + hi) / 2.0, ((hi - lo) / 2.0) * (1.0 + 1e-9) + 2.0 * U) } else { T::new(cmo.v.clamp(0.0, 1.0), cmo.e) };
 		}
 		if x.und() || self.y.und() {
 			self.y = T::UND;
@@ -785,7 +802,10 @@ pub fn tc_exact(c: &[f64; 5]) -> TC {
 	[T::exact(c[0]), T::exact(c[1]), T::exact(c[2]), T::exact(c[3]), T::exact(c[4])]
 }
 pub fn tp(c: &TC) -> T {
-	c[1].add(c[2]).add(c[3]).scale(1.0 / 3.0)
+	let s = c[1].add(c[2]).add(c[3]);
+	// evaluated as documented, (high + low + close) / 3, so that exact inputs give the value a straightforward
+	// implementation gives; the error bound still covers any other evaluation order
+	T::new(s.v / 3.0, s.e / 3.0 + 2.0 * U * (s.v / 3.0).abs())
 }
 pub fn hl2(c: &TC) -> T {
 	c[1].add(c[2]).scale(0.5)
